@@ -32,7 +32,7 @@ RULE = (
     "reported rmse == sqrt(mean r^2)/(max-min of the fitted dependent variable) recomputed from the fitted model "
     "(Virial: sqrt(mean r^2) of its linearised residual), and pressure/loading_range == range of the fitted branch. "
     "(bounds) user boxes placed around / above / below the free optimum, user guesses inside: fitted parameters inside "
-    "the box, rmse identity. (guess_best) lists of 2-5 models (any casing) or 'guess': the returned model's reported "
+    "the box, rmse identity. (guess_best) lists of 2-4 of the 13 faster models (any casing) or 'guess' (1 case in 8): the returned model's reported "
     "rmse is the minimum over the models that converge when fitted alone, and equals that model's own fit. "
     "(branch_isolation) two-branch data: fit of branch b == fit of the rows of b alone; scaling the other branch's "
     "loadings changes nothing (bitwise). (point_model) ModelIsotherm (fitted or built from parameters) in any of the "
@@ -336,6 +336,7 @@ def _scale_free_ok(model, p, l, T_K, truth=None):
 
 
 def _tag(base, model, p, l, T_K, truth=None):
+    """sub-class of a curve violation: units / scale dependence of the optimiser (KF-C12-1) or none."""
     return base + (SCALE_SUFFIX if _scale_free_ok(model, p, l, T_K, truth) else "")
 
 
@@ -351,7 +352,7 @@ def kf_fit_scale_dependence(check_name, desc, viol):
 
 
 def kf_temkin_valley(check_name, desc, viol):
-    """KF-C12-3: TemkinApprox fits end in secondary minima of the K-tht valley (success reported, 1-11 % misfit), in
+    """KF-C12-2: TemkinApprox fits end in secondary minima of the K-tht valley (success reported, 1-11 % misfit), in
     any units and also in the scale-free run (hence the plain tag): (i) data generated with tht > 1 (the start is
     tht = 0, the lower bound); (ii) rows in descending pressure order (a desorption branch taken from a point isotherm:
     the starting guess is computed from the first row), any tht."""
@@ -363,14 +364,6 @@ def kf_temkin_valley(check_name, desc, viol):
     if spec.get("shape", {}).get("tht", 0.0) > 1.0:
         return True
     return check_name == "point_model" and desc.get("branch") == "des" and desc.get("points") == "isotherm"
-
-
-def kf_celsius_dubinin(check_name, desc, viol):
-    """KF-C12-2: DR/DA take the isotherm temperature as a bare number: stored in degC at or below 0 degC the same
-    numbers that fit in K are refused (-RT >= 0)."""
-    if check_name != "unit_covariance" or viol.tag != "temperature_unit_refused":
-        return False
-    return desc.get("spec", {}).get("model") in RELATIVE_ONLY and desc.get("T_K", 1e9) - 273.15 <= 0.0
 
 
 # =====================================================================================================================
@@ -427,26 +420,45 @@ def check_exact(desc, ctx):
 # arbitrary noisy increasing data
 # =====================================================================================================================
 @st.composite
-def arb_data(draw, desorption=True, min_points=8, max_points=40):
+def arb_data(draw, desorption=True, min_points=9, max_points=40):
+    """'arbitrary noisy increasing data': pressures = cumulative sums of drawn increments; loadings = cumulative sums
+    ('walk') or a saturating / power curve over those pressures, times (1 + noise * N(0,1))."""
     rel = draw(st.booleans())
+    shape = draw(st.sampled_from(["walk", "walk", "langmuir", "power"]))
     noise = draw(st.sampled_from([0.0, 0.01, 0.05]))
     rng = draw(st.integers(0, 2 ** 31 - 1))
     pmax = draw(st.floats(0.05, 0.98)) if rel else draw(_lg(1e-2, 1e2))
     L = draw(_lg(0.1, 100.0))
+    kap = draw(_lg(0.3, 100.0))
+    expo = draw(st.floats(0.2, 1.5))
     d = draw(S.iso_data(min_points=min_points, max_points=max_points, desorption=desorption, strict_loading=True))
-    return {"rel": rel, "noise": noise, "rng": rng, "pmax": pmax, "L": L, "pressure": d["pressure"],
-            "loading": d["loading"], "branch": d["branch_true"]}
+    return {"rel": rel, "shape": shape, "noise": noise, "rng": rng, "pmax": pmax, "L": L, "kap": kap, "expo": expo,
+            "pressure": d["pressure"], "loading": d["loading"], "branch": d["branch_true"]}
 
 
-def _arb_arrays(d, force_rel=False):
-    """-> pressures, loadings, branch (0/1) arrays; pressures rescaled to pmax, loadings to L, noise applied."""
+def _arb_arrays(d, force_rel=False, des_rows=0):
+    """-> pressures, loadings, branch (0/1) arrays; pressures rescaled to pmax, loadings to L, noise applied.
+    des_rows > 0: the desorption leg is (re)built with at least that many rows (mirror of the upper adsorption rows,
+    3 % lower pressures, on a different curve), so that a desorption fit has enough points."""
     p = np.array(d["pressure"], dtype=float)
     l = np.array(d["loading"], dtype=float)
     b = np.array(d["branch"], dtype=int)
+    n_ads = int((b == 0).sum())
+    if des_rows and (b == 1).sum() < des_rows:
+        k = min(n_ads - 1, max(des_rows, n_ads // 2))
+        pa, la = p[:n_ads], l[:n_ads]
+        p = np.concatenate([pa, pa[-k - 1:-1][::-1] * 0.97])
+        l = np.concatenate([la, la[-k - 1:-1][::-1] * 1.2 + 0.05 * la.max()])
+        b = np.concatenate([np.zeros(n_ads, dtype=int), np.ones(k, dtype=int)])
     pmax = d["pmax"]
     if force_rel and not d["rel"]:
         pmax = 0.05 + 0.93 * (math.log10(d["pmax"]) + 2.0) / 4.0
     p = p / p.max() * pmax
+    if d["shape"] == "langmuir":
+        x = d["kap"] * p / pmax
+        l = x / (1.0 + x) * np.where(b == 1, 1.15, 1.0)
+    elif d["shape"] == "power":
+        l = (p / pmax) ** d["expo"] * np.where(b == 1, 1.15, 1.0)
     l = l / l.max() * d["L"]
     if d["noise"]:
         r = np.random.default_rng(d["rng"])
@@ -530,7 +542,7 @@ def strat_rmse():
 
 def check_rmse(desc, ctx):
     model, d = desc["model"], desc["data"]
-    p, l, b = _arb_arrays(d, force_rel=model in RELATIVE_ONLY + ("BET", "GAB"))
+    p, l, b = _arb_arrays(d, force_rel=model in RELATIVE_ONLY + ("BET", "GAB"), des_rows=8 if desc["branch"] == "des" else 0)
     rel = d["rel"] or model in RELATIVE_ONLY + ("BET", "GAB")
     branch = desc["branch"]
     sel = b == (0 if branch == "ads" else 1)
@@ -650,22 +662,25 @@ def check_bounds(desc, ctx):
 # =====================================================================================================================
 # (c) best of list
 # =====================================================================================================================
+LIST_MODELS = tuple(m for m in ALL_MODELS if m not in ("TSLangmuir", "FHVST", "WVST"))  # the three slowest fits
+
+
 def _casing(name, k):
     return [name, name.lower(), name.upper()][k % 3]
 
 
 def strat_guess():
-    lists = st.lists(st.sampled_from(ALL_MODELS), min_size=2, max_size=5, unique=True)
+    lists = st.lists(st.sampled_from(LIST_MODELS), min_size=2, max_size=4, unique=True)
     return st.builds(
         lambda kind, api, branch, case_k, models, data: {"kind": kind, "api": api, "branch": branch, "casing": case_k,
                                                          "models": models, "data": data},
-        st.sampled_from(["list", "list", "list", "guess"]), st.sampled_from(["guess_arrays", "guess_frame", "point", "model_iso"]),
+        st.sampled_from(["list"] * 7 + ["guess"]), st.sampled_from(["guess_arrays", "guess_frame", "point", "model_iso"]),
         st.sampled_from(["ads", "ads", "des"]), st.integers(0, 2), lists, arb_data())
 
 
 def check_guess(desc, ctx):
     d = desc["data"]
-    p, l, b = _arb_arrays(d)
+    p, l, b = _arb_arrays(d, des_rows=8 if desc["branch"] == "des" else 0)
     branch = desc["branch"]
     sel = b == (0 if branch == "ads" else 1)
     if sel.sum() < 8:
@@ -755,14 +770,7 @@ def _mdesc(mi):
 def check_branch(desc, ctx):
     model, d = desc["model"], desc["data"]
     rel_model = model in ("DR", "BET")
-    p, l, b = _arb_arrays(d, force_rel=rel_model)
-    n_ads = int((b == 0).sum())
-    if (b == 1).sum() == 0:
-        # give the case a desorption leg: mirror part of the adsorption leg below the maximum, on a different curve
-        k = max(2, n_ads // 2)
-        pd_ = p[:n_ads][-k - 1:-1][::-1] * 0.97
-        ld_ = l[:n_ads][-k - 1:-1][::-1] * 1.2 + 0.05 * d["L"]
-        p, l, b = np.concatenate([p, pd_]), np.concatenate([l, ld_]), np.concatenate([b, np.ones(k, dtype=int)])
+    p, l, b = _arb_arrays(d, force_rel=rel_model, des_rows=8)
     branch = desc["branch"]
     want = 0 if branch == "ads" else 1
     sel = b == want
@@ -855,8 +863,7 @@ def check_point_model(desc, ctx):
         try:
             mi = pygaps.ModelIsotherm(pressure=p.tolist(), loading=l.tolist(), model=model, branch=branch, **common())
         except CalculationError:
-            ctx.label("refused:" + model + (":degC<=0" if model in RELATIVE_ONLY and units["temperature_unit"] != "K"
-                                            and T <= 0 else ""))
+            ctx.label("refused:" + model)
             raise Inconclusive()
     else:
         inst = get_isotherm_model(model, parameters=dict(params), pressure_range=(float(p.min()), float(p.max())),
@@ -1062,21 +1069,21 @@ def check_covariance(desc, ctx):
 
 
 CHECKS = [
-    Check("exact_recovery", check_exact, strategy=strat_exact, budget={"quick": 3000, "thorough": 50000},
+    Check("exact_recovery", check_exact, strategy=strat_exact, budget={"quick": 2400, "thorough": 30000},
           rule="10 well-posed models x generating parameters x 8-60 point grids x magnitudes x entry paths; fit reproduces "
                "its own exact data within 1e-2 of the largest loading"),
-    Check("rmse_identity", check_rmse, strategy=strat_rmse, budget={"quick": 1600, "thorough": 30000},
+    Check("rmse_identity", check_rmse, strategy=strat_rmse, budget={"quick": 960, "thorough": 12000},
           rule="16 models x arbitrary noisy increasing data x entry paths x branch x default/user start: reported rmse == "
                "recomputed normalised RMS deviation; stored ranges == ranges of the fitted rows"),
-    Check("bounds", check_bounds, strategy=strat_bounds, budget={"quick": 1200, "thorough": 20000},
+    Check("bounds", check_bounds, strategy=strat_bounds, budget={"quick": 640, "thorough": 6000},
           rule="user boxes around/above/below the free optimum, user guesses inside: parameters stay in the box"),
-    Check("guess_best", check_guess, strategy=strat_guess, budget={"quick": 320, "thorough": 5000}, shrink_quick=False,
-          rule="lists of 2-5 models or 'guess' through guess()/from_pointisotherm/model_iso: winner has the minimum reported "
+    Check("guess_best", check_guess, strategy=strat_guess, budget={"quick": 128, "thorough": 1600}, shrink_quick=False,
+          rule="lists of 2-4 models or 'guess' through guess()/from_pointisotherm/model_iso: winner has the minimum reported "
                "rmse among the candidates that converge alone"),
-    Check("branch_isolation", check_branch, strategy=strat_branch, budget={"quick": 1200, "thorough": 20000},
+    Check("branch_isolation", check_branch, strategy=strat_branch, budget={"quick": 640, "thorough": 6000},
           rule="two-branch inputs (explicit or guessed split): fit == fit of the requested rows; other branch perturbed"),
-    Check("point_model", check_point_model, strategy=strat_point_model, budget={"quick": 1600, "thorough": 30000},
+    Check("point_model", check_point_model, strategy=strat_point_model, budget={"quick": 1200, "thorough": 16000},
           rule="from_modelisotherm in any unit configuration: on the model, metadata/units kept, refit reproduces"),
-    Check("unit_covariance", check_covariance, strategy=strat_covariance, budget={"quick": 1600, "thorough": 30000},
+    Check("unit_covariance", check_covariance, strategy=strat_covariance, budget={"quick": 1200, "thorough": 16000},
           rule="same exact data in two unit configurations: fitted curves agree up to the reference conversion"),
 ]
